@@ -3,7 +3,7 @@ CONSTANTS
   Impl = "asis"
   ExcludeKF = TRUE
   KindSet = {"layer", "seq", "ubm", "ubf", "id", "ubr"}
-  NBrSet = {2, 3, 4}
+  NBrSet = {1, 2, 3, 4}
   MaxBlocks = 1
   UseSet = {1}
   PoolSet = {FALSE}
@@ -14,6 +14,8 @@ CONSTANTS
   D = 4
   NameFamily = "plain"
   NameImpl = "asis"
+  SampleImpl = "ref"
+  ForkImpl = "ref"
 INVARIANT TypeOK
 INVARIANT C03_ExportSucceeds
 INVARIANT C03_ExportIsWinner
